@@ -68,6 +68,9 @@ mod builder;
 pub(crate) use builder::Builder;
 
 mod client;
+#[cfg(all(test, feature = "verif"))]
+#[path = "/verif/harness/conductor_executor/mod.rs"]
+mod verif_harness;
 #[cfg(test)]
 mod tests;
 pub(super) use client::Client;
